@@ -361,6 +361,11 @@ func (s *sess) accept(st int, op Op, res opResult) (ok bool, next int, apply fun
 		case stRO:
 			return true, stRO | stClosed, nil, ""
 		}
+		// closed (finalized or discarded): finalizing writes the index and the header - "every write
+		// returns an error"; a call that reports success on a discarded store promises a finalized file
+		if st == stClosed && res.err == nil {
+			return false, 0, nil, "FinalizeReadOnly reported success on a store that is closed"
+		}
 		return true, stClosed, nil, ""
 	case "close":
 		if res.err == ErrUnsupported {
